@@ -211,13 +211,20 @@ def arg_sets(rng, k):
     return [[str(rng.randrange(-3, 20)), str(rng.randrange(-3, 20))][:rng.randrange(0, 3)] for _ in range(k)]
 
 
-def build(dirpath, files, timeout=60):
-    """compile; returns gcno bytes or raises"""
+# gcov format versions clang-14 can be told to write (-Xclang -coverage-version=) that llvm-cov-14 gcov reads AND that
+# grcov reads as LLVM output (version < 80).  '800*' and later are written by clang in the GCC 8/9 record layout, which
+# grcov decodes with its GCC rules (function end line filter; all-zero strings are an error): left out, see assumptions.
+VERSIONS = ["408*", "407*", "402*", "409*", "406*", "404*"]
+
+
+def build(dirpath, files, timeout=60, version=None):
+    """compile (optionally with an explicit gcov format version); returns gcno bytes or raises"""
     os.makedirs(dirpath, exist_ok=True)
     for n, t in files.items():
         with open(os.path.join(dirpath, n), "w") as f:
             f.write(t)
-    p = subprocess.run([CLANG, "--coverage", "-O0", "-w", "t.c", "-o", "t"], cwd=dirpath, stdout=subprocess.PIPE, stderr=subprocess.PIPE, timeout=timeout)
+    vopt = ["-Xclang", "-coverage-version=" + version] if version else []
+    p = subprocess.run([CLANG, "--coverage", "-O0", "-w"] + vopt + ["t.c", "-o", "t"], cwd=dirpath, stdout=subprocess.PIPE, stderr=subprocess.PIPE, timeout=timeout)
     if p.returncode != 0:
         raise RuntimeError("clang failed: " + p.stderr.decode()[-500:])
     return open(os.path.join(dirpath, "t.gcno"), "rb").read()
@@ -363,3 +370,72 @@ def ambiguous_cycle_count(arcs, trials=60):
                 cap[e] -= m
             tot += m
     return len({total(seed) for seed in range(trials)}) > 1
+
+
+# ---- big-endian twins ---------------------------------------------------------------------------------------
+
+def _swap_words(b):
+    n = len(b) // 4
+    import struct
+    return struct.pack(">%dI" % n, *struct.unpack("<%dI" % n, b[:4 * n])) + b[4 * n:]
+
+
+def to_big_endian_gcda(buf):
+    """little-endian LLVM gcda -> the same file in big-endian byte order (a gcda holds 32-bit words only; a 64-bit
+    counter stays low word first, each word byte-swapped)"""
+    assert buf[:4] == b"adcg"
+    return _swap_words(buf)
+
+
+def to_big_endian_gcno(buf):
+    """little-endian LLVM gcno (format < 8.0) -> big-endian: every 32-bit word byte-swapped, the bytes of string
+    payloads kept in place (their length words swapped like any word)"""
+    import struct
+    assert buf[:4] == b"oncg"
+    ws = list(struct.unpack("<%dI" % (len(buf) // 4), buf[:len(buf) // 4 * 4]))
+    raw = [False] * len(ws)            # words that are string payload
+    ver = 10 * (buf[7] - 48) + (buf[5] - 48)
+    assert ver < 80, "GCC 8+ record layout not handled"
+
+    def string_at(i):                  # marks the payload of the string whose length word is at i; returns next index
+        n = ws[i]
+        for k in range(i + 1, min(i + 1 + n, len(ws))):
+            raw[k] = True
+        return i + 1 + n
+    i = 3
+    while i + 1 < len(ws) and ws[i] != 0:
+        tag, ln = ws[i], ws[i + 1]
+        body = i + 2
+        if tag == 0x01000000:
+            j = body + 2 + (1 if ver >= 47 else 0)
+            j = string_at(j)
+            string_at(j)
+        elif tag == 0x01450000:
+            j = body + 1
+            end = body + ln
+            while j < end:
+                if ws[j] != 0:
+                    j += 1
+                else:
+                    if j + 1 >= len(ws) or ws[j + 1] == 0:
+                        break
+                    j = string_at(j + 1)
+        i = body + ln
+    out = bytearray()
+    for k, w in enumerate(ws):
+        out += buf[4 * k:4 * k + 4] if raw[k] else struct.pack(">I", w)
+    return bytes(out) + buf[len(ws) * 4:]
+
+
+def gcov_reference_bytes(dirpath, files, gcno, gcda):
+    """llvm-cov gcov on given gcno/gcda bytes (e.g. a converted twin) next to the sources, in its own directory"""
+    os.makedirs(dirpath, exist_ok=True)
+    for n, t in files.items():
+        with open(os.path.join(dirpath, n), "w") as f:
+            f.write(t)
+    with open(os.path.join(dirpath, "t.gcno"), "wb") as f:
+        f.write(gcno)
+    if gcda is not None:
+        with open(os.path.join(dirpath, "t.gcda"), "wb") as f:
+            f.write(gcda)
+    return gcov_reference(dirpath, gcda is not None)
